@@ -215,6 +215,8 @@ def iban(x):
         raise Reject()
     if x[2] not in DIGITS or x[3] not in DIGITS:
         raise Reject()
+    if x[2:4] in ('00', '01', '99'):
+        raise Reject()      # check digits are 98 - remainder: 02..98
     if not _bban_ok(x[4:], structure):
         raise Reject()
     if _mod97(x[4:] + x[:4]) != 1:
